@@ -216,9 +216,11 @@ class Program:
         self._load()
         self._link()
         if normalise:
-            from .inline import normalise_accumulators
+            from .inline import _logger_names, normalise_accumulators, strip_logging
+            loggers = {m.name: _logger_names(m.tree, m.resolve) for m in self.modules.values()}
             for fi in self.functions.values():
                 if fi.parent is None:
+                    strip_logging(fi.node, loggers.get(fi.module.name, set()))
                     normalise_accumulators(fi.node)
             from .inline import Inliner, load_reference
             ref = load_reference()
